@@ -1,11 +1,15 @@
 #!/bin/sh
-# ./sweep.sh [tier]: run every seeded change and every fix revert against the check expected to catch it; prints one line each.
-tier="${1:-quick}"
+# ./sweep.sh [tier] [shard n]: run every seeded change and every fix revert against the check expected to catch it; prints
+# one line each. With "shard n" only every n-th entry (offset shard) is run, on scratch worktrees (mutcheck2.sh), so that
+# several shards can run side by side.
+tier="${1:-quick}"; shard="${2:-0}"; nshards="${3:-1}"
 cd /verif
+i=0
 while read patch prop only; do
   [ -z "$patch" ] && continue
   case "$patch" in \#*) continue;; esac
-  if [ -n "$only" ]; then out=$(./mutcheck.sh /verif/seeded/$patch $prop $tier -only $only 2>&1); else out=$(./mutcheck.sh /verif/seeded/$patch $prop $tier 2>&1); fi
+  i=$((i+1)); [ $((i % nshards)) -ne "$shard" ] && continue
+  if [ -n "$only" ]; then out=$(./mutcheck2.sh /verif/seeded/$patch $prop $tier -only $only 2>&1); else out=$(./mutcheck2.sh /verif/seeded/$patch $prop $tier 2>&1); fi
   rc=$(echo "$out" | grep -o "exit=[0-9]*")
   first=$(echo "$out" | grep -m1 -E "^(VIOLATION|OK|INCONCLUSIVE|UNCONFIRMED)" | cut -c1-150)
   echo "$patch $prop $only $rc :: $first"
@@ -75,4 +79,17 @@ C11-c/patch.diff C11 Layouts
 C12-c/patch.diff C12 Scan
 C14-c/patch.diff C14
 C18-c/patch.diff C18 Recycle
+C02-c/patch.diff C04 MirrorTables
+C03-c/patch.diff C13 RoutingStep
+C05-c/patch.diff C05 NewGate
+C09-c/patch.diff C09 TwoKeys
+C10-c/patch.diff C10 Idle
+C13-c/patch.diff C13 ThreeReplicas
+C15-c/patch.diff C15 PipelineBatch
+C16-c/patch.diff C16 Handlers
+C17-c/patch.diff C15 PipelineBatch
+C19-c/patch.diff C19 DestroyLeftovers
+C20-c/patch.diff C20 DMapCompaction
+reverts/R-51545c9.diff C10 Idle
+reverts/R-85a6273.diff C03 Balancer
 LIST
